@@ -293,7 +293,17 @@ fn check(case: &Case, st: &mut Stats) -> Vec<Violation> {
     // sentinel: the well-formed frame after all the hostile input must have been applied
     if v.is_empty() {
         if let (Some(shex), Some(addr)) = (case.meta["sentinel"].as_str(), case.meta["sentinel_addr"].as_u64()) {
-            if d >= 1 {
+            // only meaningful while the script still feeds the sentinel line
+            let mut needle = shex.as_bytes().to_vec();
+            needle.push(b'\n');
+            let fed = case.script.conns.iter().any(|c| match c {
+                Conn::Accept { ops } => {
+                    let all: Vec<u8> = ops.iter().flat_map(|o| if let Op::Data { bytes, .. } = o { bytes.0.clone() } else { vec![] }).collect();
+                    all.windows(needle.len()).any(|w| w == &needle[..])
+                }
+                _ => false,
+            });
+            if d >= 1 && fed {
                 let mut seen = false;
                 for (i, s) in h.steps.iter().enumerate() {
                     if s.lines.iter().any(|l| l == shex.as_bytes()) {
